@@ -23,7 +23,7 @@ def main():
             output_path = args.output
         else:
             convert_image = mammoth.images.img_element(ImageWriter(args.output_dir))
-            output_filename = "{0}.html".format(os.path.basename(args.path).rpartition(".")[0])
+            output_filename = "{0}.html".format(os.path.splitext(os.path.basename(args.path))[0])
             output_path = os.path.join(args.output_dir, output_filename)
         
         result = mammoth.convert(
